@@ -89,3 +89,30 @@ def frame(P, entry, summary, allowed, under=None):
             r.bad('path=%s' % path, '`%s` may write `%s` (in %s), which is outside its frame %s'
                   % (entry, path, ', '.join(sorted(writers)[:3]), sorted(allowed)))
     return r
+
+
+def fail_atomic_grouped(P, entries, sums, exempt, under_map=None):
+    """FAIL-ATOMIC over a set of entries, reported per (state path, writer): one violation names all entries in which the
+    write can be followed by an error return. Returns {(path, writer): Res} plus a Res for clean bookkeeping."""
+    groups = collections.defaultdict(lambda: {'entries': set(), 'ffs': set(), 'whys': []})
+    used = []
+    for e in entries:
+        under = (under_map or {}).get(e)
+        rep = dirty_report(P, sums[e], 1, under)
+        for (path, w, ff), whys in rep.items():
+            if under:
+                for u in under:
+                    if path == u or path.startswith(u + '.'):
+                        path = path[len(u) + 1:] if path != u else path
+            ex = None
+            for (prx, wrx), reason in exempt.items():
+                if re.search(prx, path) and re.search(wrx, w):
+                    ex = reason
+            if ex:
+                used.append('%s / %s in %s: %s' % (path, w, e, ex))
+                continue
+            g = groups[(path, w)]
+            g['entries'].add(e)
+            g['ffs'].add(ff)
+            g['whys'].extend(whys)
+    return groups, sorted(set(used))
